@@ -6,7 +6,12 @@
 use super::*;
 
 const KMAX: usize = 8;
-static SRC: &str = "xxxxxxxx";
+/// Bytes per raw token. Every raw token's text is `-/`: the unchanged lexers never look at the
+/// text of a token they skip, so the payload is free; with this payload a change that makes a
+/// skipped token's *text* matter (e.g. a line comment ending in `-/` closing a block comment)
+/// shows up as a difference from the reference.
+const TOKB: usize = 2;
+static SRC: &str = "-/-/-/-/-/-/-/-/";
 
 const CODE: u8 = 0; // an ordinary grammar token
 const UNKNOWN: u8 = 1; // the catch-all `Unknown` token (unknown character)
@@ -49,13 +54,13 @@ static mut MON: Monitor =
 fn lex_stub<'s: 's>(lexer: &mut logos::Lexer<'s, Tok<'s>>) -> Option<Result<Tok<'s>, ()>> {
     let m = unsafe { &mut *std::ptr::addr_of_mut!(MON) };
     let pos = lexer.span().end;
-    assert!(pos == m.issued, "harness invariant: one byte per raw token");
+    assert!(pos == m.issued * TOKB, "harness invariant: TOKB bytes per raw token");
     if m.ended || m.issued >= m.limit || (!m.exact_end && kani::any()) {
         m.ended = true;
-        tooling_observe_end(m.limit, m.issued);
+        tooling_observe_end(m.limit * TOKB, m.issued);
         return None;
     }
-    lexer.bump(1);
+    lexer.bump(TOKB);
     let class: u8 = kani::any();
     kani::assume(class < NCLASS);
     m.issued += 1;
@@ -105,7 +110,10 @@ fn step_check(kmax: usize) {
         MON.depth = d0;
     }
     let mut lexer = Lexer::new(SRC);
-    lexer.comment_depth = d0;
+    // (`as _` / `as usize`: the harness does not depend on the integer type of the counter; a
+    // narrower counter simply restricts d0 to its range)
+    lexer.comment_depth = d0 as _;
+    kani::assume(lexer.comment_depth as usize == d0);
     let got = lexer.next();
     let m = unsafe { &*std::ptr::addr_of!(MON) };
     match got {
@@ -118,7 +126,7 @@ fn step_check(kmax: usize) {
         | Some((start, tok, end)) => {
             // (b) exactly the next token outside comments, with its own span and identity
             assert!(m.deliverable == 1, "the delivered token is the first token outside comments (none skipped, none invented)");
-            assert!(start == m.last_pos && end == start + 1 && m.issued == start + 1, "delivered token is the one just read and carries its own span");
+            assert!(start == m.last_pos && end == start + TOKB && m.issued * TOKB == end, "delivered token is the one just read and carries its own span");
             let same = match tok {
                 | Tok::Comma => m.last_class == CODE,
                 | Tok::Unknown(_) => m.last_class == UNKNOWN,
@@ -130,7 +138,7 @@ fn step_check(kmax: usize) {
         }
     }
     // (c) invariant re-established for the next call
-    assert!(lexer.comment_depth == m.depth, "comment depth equals the reference depth after the call");
+    assert!(lexer.comment_depth as usize == m.depth, "comment depth equals the reference depth after the call");
     kani::cover!(m.issued == kmax && m.deliverable == 1, "a token delivered after skipping a full-length run");
     kani::cover!(m.issued >= 3 && d0 == 2 && m.depth == 0 && m.deliverable == 1, "left a doubly nested comment and delivered a token");
     std::mem::forget(lexer);
@@ -328,7 +336,7 @@ fn tooling_observe(class: u8, pos: usize, issued: usize) {
         } else if class == CLOSE {
             t.depth -= 1;
             if t.depth == 0 {
-                result = Some((t.start, pos + 1, K_COMMENT));
+                result = Some((t.start, pos + TOKB, K_COMMENT));
                 t.has_start = false;
             }
         }
@@ -337,13 +345,13 @@ fn tooling_observe(class: u8, pos: usize, issued: usize) {
         t.start = pos;
         t.depth = 1;
     } else if class == CODE {
-        result = Some((pos, pos + 1, K_PUNCT));
+        result = Some((pos, pos + TOKB, K_PUNCT));
     } else if class == TEXT_LINE {
-        result = Some((pos, pos + 1, K_TEXT));
+        result = Some((pos, pos + TOKB, K_TEXT));
     } else if class == COMMENT_LINE {
-        result = Some((pos, pos + 1, K_COMMENT));
+        result = Some((pos, pos + TOKB, K_COMMENT));
     } else if class == CLOSE {
-        result = Some((pos, pos + 1, K_OPERATOR));
+        result = Some((pos, pos + TOKB, K_OPERATOR));
     } // UNKNOWN: not highlightable, skipped
     if let Some((s, e, k)) = result {
         t.done = true;
@@ -399,8 +407,9 @@ fn tooling_step_check(kmax: usize) {
         TMON.start = start0;
     }
     let mut tokens = LexicalTokens::new(SRC);
-    tokens.source_len = len;
-    tokens.comment_depth = d0;
+    tokens.source_len = len * TOKB;
+    tokens.comment_depth = d0 as _;
+    kani::assume(tokens.comment_depth as usize == d0);
     tokens.comment_start = if d0 > 0 { Some(start0) } else { None };
     let got = tokens.next();
     let m = unsafe { &*std::ptr::addr_of!(MON) };
@@ -422,13 +431,13 @@ fn tooling_step_check(kmax: usize) {
         }
     }
     assert!(m.issued == t.issued_at_done, "the call read exactly the raw tokens up to its result");
-    assert!(tokens.comment_depth == t.depth, "comment depth equals the reference depth after the call");
+    assert!(tokens.comment_depth as usize == t.depth, "comment depth equals the reference depth after the call");
     assert!(tokens.comment_start.is_some() == t.has_start, "an opening is recorded exactly while inside a comment");
     if let Some(start) = tokens.comment_start {
         assert!(start == t.start, "recorded opening is the reference opening");
     }
-    kani::cover!(t.some && t.r_kind == K_COMMENT && d0 == 0 && t.r_end > t.r_start + 2, "a block comment opened and closed within the call");
-    kani::cover!(t.some && t.r_end == len && m.ended, "unterminated comment flushed at end of input");
+    kani::cover!(t.some && t.r_kind == K_COMMENT && d0 == 0 && t.r_end > t.r_start + 2 * TOKB, "a block comment opened and closed within the call");
+    kani::cover!(t.some && t.r_end == len * TOKB && m.ended, "unterminated comment flushed at end of input");
     std::mem::forget(tokens);
     std::mem::forget(got);
 }
